@@ -200,7 +200,7 @@ def run(case):
 
 def legs(tier):
     ml = 8 if tier == 'quick' else 14
-    a = Leg('diff', _case(ml), run, 5000, 240000, max_shrink_buckets=6)
+    a = Leg('diff', _case(ml), run, 20000, 240000, max_shrink_buckets=6)
     a.essential = {'psi*window': 0.02, 'unequal*window': 0.02, 'ndim=2': 0.05, 'inner=euclidean': 0.1}
     return [a]
 
